@@ -780,6 +780,7 @@ Definition sub_wager (s : chain) (signer : Z) (tk : ticket) (inner_creator : Z) 
       if negb (ticket_ok s tk) then None
       else if negb (signer =? inner_creator) then None
       else if negb (wager_prepare s inner_creator tk2 betuid amount selmkt selodds mult allodds ky oddstype) then None
+      else if (main_ded <? 0) || (sub_ded <? 0) then None   (* types/ticket.go Validate: no negative part *)
       else if negb (main_ded + sub_ded =? amount) then None
       else if bget (c_bank s) signer <? main_ded then None
       else
